@@ -237,6 +237,16 @@ func (g *c13Gen) doc() *aNode {
 		}
 		root.entries = append(root.entries, aEntry{key: fmt.Sprintf("d%d", i+1), v: d})
 	}
+	if r.IntN(8) == 0 {
+		// a LARGE anchored sequence (more than a hundred nodes) reached through an alias
+		big := &aNode{kind: "seq", anchor: "big"}
+		for i := 0; i < 105+r.IntN(30); i++ {
+			big.items = append(big.items, &aNode{kind: "scalar", val: ref.IntV(int64(i))})
+		}
+		g.anchors["big"] = big
+		root.entries = append(root.entries, aEntry{key: "dbig", v: big}, aEntry{key: "ubig", v: &aNode{kind: "alias", target: "big", ref: big}})
+		g.aliases++
+	}
 	nu := 2 + r.IntN(4)
 	for i := 0; i < nu; i++ {
 		var v *aNode
